@@ -328,6 +328,10 @@ func c12Round3(c *Ctx) {
 		c.Check(uniq == 1 && direct == 0, "R12l", "atomicfile.New temporary file", p.Pos(fn.Pos()), "one TempFile/CreateTemp", fmt.Sprintf("the temporary file is opened under a predictable name (%d unique-name creations, %d direct opens): when the input, a sibling or a concurrent run already has that name, the rewrite truncates it and then copies from a file it has just emptied, so the result is not the patched original", uniq, direct))
 	}
 
+	c.Rule("R12p", "ApplyBinPatch fails only because reading, loading or applying the patch failed", 2)
+	for _, f := range applyBinPatchRefusesNothingItself(p) {
+		c.Check(f.OK, "R12p", f.Key, f.Pos, "", f.Detail)
+	}
 	c.Rule("R12n", "a stream read through a bufio.Reader is not also moved with a relative Seek that ignores what is buffered (module-wide)", 0)
 	for _, f := range bufferedAndPositioned(p) {
 		c.Check(f.OK, "R12n", f.Key, f.Pos, "", f.Detail)
@@ -458,6 +462,10 @@ func c18Round3(c *Ctx) {
 		c.Undecided("R18h", "single-sector allocations", "-", "no makeFreeSectors(...)[k] found in lib/comdoc (writeShortSector had one)")
 	}
 
+	c.Rule("R18m", "master-table sectors are counted at one entry less per sector than sector-table sectors", 1)
+	for _, f := range msatSectorHoldsOneLess(p) {
+		c.Check(f.OK, "R18m", f.Key, f.Pos, "", f.Detail)
+	}
 	c.Rule("R18k", "ComDoc.Close sets the file length to the end of the last used sector on every path that found one (cut and pad), and never makes that depend on the file's present size", 2)
 	for _, f := range closePadsLastSector(p) {
 		c.Check(f.OK, "R18k", f.Key, f.Pos, "", f.Detail)
@@ -528,6 +536,10 @@ func c18Round3(c *Ctx) {
 }
 
 func c19Round3(c *Ctx) {
+	c.Rule("R19k", "the strong-name blob states the key size as eight times the modulus bytes it carries", 1)
+	for _, f := range snkBitLengthFromModulusBytes(c.P) {
+		c.Check(f.OK, "R19k", f.Key, f.Pos, "", f.Detail)
+	}
 	p := c.P
 	c.Rule("R19h", "the canonical form handed to the digest is memory of its own, not a pooled buffer (shared with C14 R14e)", 0)
 	for _, f := range poolEscapes(p) {
